@@ -434,3 +434,153 @@ def c12_scenario(rep, binary, workdir, rng, scenario_lines):
     rep.hashes.add(hash(("c12sys", tuple(sorted(per.items())))))
     if len(rep.samples) < 6:
         rep.sample({"system_level": True, "frames_sent": len(frames), "records_on_stdout": len(lines), "rest_all_entries": len(served)})
+
+
+# ---------------------------------------------------------------- C06: positions as decoded by the running executable
+
+import math
+
+
+def _nl(lat):
+    """number of longitude zones, closed-form (DO-260B A.1.7.2 d)"""
+    if abs(lat) >= 87.0:
+        return 1 if abs(lat) > 87.0 else 2
+    if lat == 0:
+        return 59
+    a = 1 - math.cos(math.pi / 30.0)
+    b = math.cos(math.pi / 180.0 * abs(lat)) ** 2
+    return int(math.floor(2 * math.pi / math.acos(1 - a / b)))
+
+
+def cpr_encode(lat, lon, odd, surface):
+    nb = 19 if surface else 17
+    scale = float(1 << nb)
+    dlat = 360.0 / (60 - odd)
+    yz = math.floor(scale * ((lat % dlat) / dlat) + 0.5)
+    rlat = dlat * (yz / scale + math.floor(lat / dlat))
+    ni = max(_nl(rlat) - odd, 1)
+    dlon = 360.0 / ni
+    xz = math.floor(scale * ((lon % dlon) / dlon) + 0.5)
+    return int(yz) % (1 << 17), int(xz) % (1 << 17)
+
+
+def _dist_m(lat1, lon1, lat2, lon2):
+    p1, p2 = math.radians(lat1), math.radians(lat2)
+    dl = math.radians(lon2 - lon1)
+    a = math.sin((p2 - p1) / 2) ** 2 + math.cos(p1) * math.cos(p2) * math.sin(dl / 2) ** 2
+    return 2 * 6371000.0 * math.asin(min(1.0, math.sqrt(a)))
+
+
+def position_frame(df, cf, aa, lat, lon, odd, surface, rng):
+    yz, xz = cpr_encode(lat, lon, odd, surface)
+    if surface:
+        me = (7 << 51) | (rng.randrange(1, 60) << 44) | (1 << 43) | (rng.randrange(128) << 36) | (odd << 34) | (yz << 17) | xz
+    else:
+        n = rng.randrange(100, 1700)  # 25 ft code: altitude 1500..41500 ft
+        ac12 = ((n & 0x7F0) << 1) | 0x10 | (n & 0xF)
+        me = (11 << 51) | (ac12 << 36) | (odd << 34) | (yz << 17) | xz
+    payload = bytes([(df << 3) | cf]) + aa.to_bytes(3, "big") + me.to_bytes(7, "big")
+    if df == 17:
+        return seal(payload, 0)
+    return payload + rng.randbytes(3)  # DF18: the parity field is free
+
+
+def c06_scenario(rep, binary, workdir, rng):
+    """1-4 slow aircraft (<= 60 kt, so that feed jitter stays far below the 25 m bound) reporting at ~5 Hz in real time,
+    DF17 and DF18 targets, airborne and surface, interleaved on one feed with the receiver reference within 30 NM"""
+    rlat = rng.uniform(-70, 70)
+    rlon = rng.uniform(-179, 179)
+    acs = []
+    for k in range(rng.choice([1, 2, 3, 4])):
+        brg, dist = rng.uniform(0, 2 * math.pi), rng.uniform(0, 30 * 1852.0)
+        lat = rlat + math.degrees(dist * math.cos(brg) / 6371000.0)
+        lon = rlon + math.degrees(dist * math.sin(brg) / 6371000.0 / max(0.2, math.cos(math.radians(rlat))))
+        acs.append({"aa": rng.randrange(1, 1 << 24), "df": rng.choice([17, 17, 18]), "cf": rng.choice([0, 1, 2, 5, 6]),
+                    "lat": lat, "lon": lon, "vn": rng.uniform(-30, 30), "ve": rng.uniform(-30, 30), "surface": rng.random() < 0.35, "odd": 0})
+    if len({a["aa"] for a in acs}) != len(acs):
+        return
+    run = Run(binary, workdir, nsrc=1, window=30, args=["--history-expire", "0"], reference=f"{rlat!r},{rlon!r}", tag="c06sys")
+    truth = {}
+    try:
+        t0 = time.time()
+        last = t0
+        for step in range(rng.choice([12, 20, 30])):
+            now = time.time()
+            dt, last = now - last, now
+            batch = []
+            for a in acs:
+                a["lat"] += math.degrees(a["vn"] * dt / 6371000.0)
+                a["lon"] += math.degrees(a["ve"] * dt / 6371000.0 / max(0.2, math.cos(math.radians(a["lat"]))))
+                if rng.random() < 0.15:
+                    continue  # dropped report
+                a["odd"] ^= 1 if rng.random() < 0.85 else 0
+                f = position_frame(a["df"], a["cf"] if a["df"] == 18 else 5, a["aa"], a["lat"], a["lon"], a["odd"], a["surface"], rng)
+                truth[f.hex()] = (a["aa"], a["lat"], a["lon"], a["surface"], a["df"])
+                batch.append(f)
+            rng.shuffle(batch)
+            if batch:
+                run.send(0, batch)
+            time.sleep(0.2)
+        for t in trailers(4):
+            time.sleep(0.3)
+            run.send(0, [t])
+        time.sleep(1.0)
+        lines = run.records()
+    finally:
+        code, err = run.stop()
+    rep.evaluations += 1
+    replay = {"mode": "system", "scenario": "c06", "reference": [rlat, rlon], "aircraft": len(acs)}
+    for p in payload_panics(err):
+        rep.violation("C06:system:panic", f"jet1090 panicked while decoding positions: {p}", replay)
+    with_pos = 0
+    for l in lines:
+        try:
+            o = json.loads(l)
+        except ValueError:
+            continue
+        t = truth.get(o.get("frame"))
+        if t is None:
+            continue
+        aa, lat, lon, surface, df = t
+        rep.cls("system:position-reports")
+        if o.get("icao24") != "%06x" % aa:
+            rep.violation(f"C06:system:wrong-address:DF{df}", f"report {o.get('frame')} of {aa:06x} is shown for {o.get('icao24')}", replay)
+        if o.get("latitude") is None or o.get("longitude") is None:
+            continue
+        with_pos += 1
+        d = _dist_m(lat, lon, o["latitude"], o["longitude"])
+        rep.mx("system_position_error_m", d)
+        # 25 m of the property + what a 60 kt target moves during 0.3 s of feed/scheduling jitter
+        if d > 25.0 + 10.0:
+            kind = "surface" if surface else "airborne"
+            rep.violation(f"C06:system:wrong-position:{kind}:DF{df}",
+                          f"jet1090 (reference {rlat:.4f},{rlon:.4f}) put {kind} report {o.get('frame')} of {aa:06x} at ({o['latitude']:.6f},{o['longitude']:.6f}), "
+                          f"{d:.0f} m from where it was encoded ({lat:.6f},{lon:.6f})", replay)
+    rep.cls("system:positions-decoded", with_pos)
+    rep.cls(f"system:aircraft:{len(acs)}")
+    if any(a["df"] == 18 for a in acs):
+        rep.cls("system:tisb-target")
+    if any(a["surface"] for a in acs):
+        rep.cls("system:surface-target")
+    if with_pos:
+        rep.hashes.add(hash(("c06sys", round(rlat, 3), round(rlon, 3), len(acs), with_pos)))
+    if len(rep.samples) < 3:
+        rep.sample({"system_level": True, "reference": [rlat, rlon], "aircraft": len(acs), "reports_sent": len(truth), "records": len(lines), "with_position": with_pos})
+
+
+def c06_worker(args):
+    shard, tier, seed, binary, workdir = args
+    from common import Rep
+    rep = Rep("C06")
+    rng = random.Random((seed << 8) ^ shard ^ 0xC06)
+    try:
+        for _ in range(1 if tier == "quick" else 8):
+            c06_scenario(rep, binary, os.path.join(workdir, f"sys06_{shard}"), rng)
+    except Inconclusive as e:
+        return {"_crashed": True, "_stderr": str(e), "_cmd": ["c06sys"]}
+    except Exception:
+        import traceback
+        return {"_crashed": True, "_stderr": "checker error: " + traceback.format_exc()[-1500:], "_cmd": ["c06sys"]}
+    rep.assumptions.append("system level: 1-4 targets slower than 60 kt reporting at 5 Hz in real time to the unmodified jet1090 executable (DF17 and DF18, "
+                           "airborne and surface, receiver reference within 30 NM); tolerance 25 m + 10 m for feed jitter; reports without a position are not judged")
+    return rep.to_dict()
